@@ -248,7 +248,7 @@ impl Sut for V {
                         out.results.push(r);
                         i += 1;
                     }
-                    ROp::Read { .. } | ROp::ReadAll { .. } | ROp::ReadExact { .. } | ROp::ReadAllDigest { .. } => {
+                    ROp::Read { .. } | ROp::ReadAll { .. } | ROp::ReadExact { .. } | ROp::ReadAllDigest { .. } | ROp::ReadVectored { .. } => {
                         out.results.push(RRes::NoFile);
                         i += 1;
                     }
@@ -268,6 +268,22 @@ impl Sut for V {
                                                 Ok(k) => {
                                                     buf.truncate(k);
                                                     out.results.push(RRes::Bytes(buf));
+                                                }
+                                                Err(e) => out.results.push(RRes::Err(es(e))),
+                                            }
+                                            i += 1;
+                                        }
+                                        ROp::ReadVectored { sizes } => {
+                                            let mut bufs: Vec<Vec<u8>> = sizes.iter().map(|n| vec![0u8; *n]).collect();
+                                            let r = {
+                                                let mut slices: Vec<std::io::IoSliceMut> = bufs.iter_mut().map(|b| std::io::IoSliceMut::new(b)).collect();
+                                                f.data.read_vectored(&mut slices)
+                                            };
+                                            match r {
+                                                Ok(k) => {
+                                                    let mut all: Vec<u8> = bufs.concat();
+                                                    all.truncate(k);
+                                                    out.results.push(RRes::Bytes(all));
                                                 }
                                                 Err(e) => out.results.push(RRes::Err(es(e))),
                                             }
@@ -430,7 +446,7 @@ impl Sut for V {
 
     fn linear_opts(&self, image: Rc<Vec<u8>>, rcfg: &ReadCfg, subset: &[String], sink_sched: &Sched, sink_fail_call: Option<u64>, keep: bool) -> LinearOut {
         let src = source(&image, rcfg);
-        let mut out = LinearOut { open: Ok(()), result: None, got: BTreeMap::new(), panic: None };
+        let mut out = LinearOut { open: Ok(()), result: None, got: BTreeMap::new(), lens: BTreeMap::new(), panic: None };
         let sinks: Vec<(String, SimSink)> = subset
             .iter()
             .enumerate()
@@ -461,6 +477,7 @@ impl Sut for V {
         }
         for (n, s) in &sinks {
             out.got.insert(n.clone(), s.data());
+            out.lens.insert(n.clone(), s.len() as u64);
             crate::seams::log_num("linear-got", s.len() as u64, 0);
         }
         crate::seams::log_num("linear-end", u64::from(matches!(out.result, Some(Ok(())))), u64::from(out.panic.is_some()));
